@@ -360,10 +360,15 @@ Inductive pfault :=
        answer is lost, the transport sends the whole request again without a new reconcile;
        in between the hub's compaction may mark the path's receipt (mark) *)
 | FDropBefore                                              (* never reaches the hub *)
+| FExistsErr (reached : bool)
+    (* the transfer fails (after the hub processed a clean delivery when [reached], before it otherwise)
+       AND the spoke backend's Exists errors when the agent asks whether the source vanished *)
 | FBackpressure                                            (* 429 before the receiver runs *)
 | FConflict (d : digest).                                  (* scripted 409 carrying digest d *)
 
-Inductive rfault := ROk | RDropBefore | RLostReply.
+Inductive rfault :=
+| ROk | RDropBefore | RLostReply
+| RIndexFail.   (* the hub index refuses writes while this reconcile runs (shared SQLite writer busy / read-only) *)
 
 Definition no_mut : body_mut := {| bm_keep := None; bm_flip := None |}.
 Definition fault_free (f : pfault) : bool :=
@@ -371,6 +376,9 @@ Definition fault_free (f : pfault) : bool :=
   | FDeliver {| bm_keep := None; bm_flip := None |} false false => true
   | _ => false
   end.
+
+Definition exists_errs (f : pfault) : bool :=
+  match f with FExistsErr _ => true | _ => false end.
 
 Inductive pres :=
 | PCommitted (n : N) | PAlready (n : N) | PPartial (n : N) | PConflict (d : digest)
@@ -386,6 +394,10 @@ Definition pres_of (r : hres) : pres :=
 Definition put_file (f : pfault) (h : hub) (e : row) (body : bytes) : hub * pres :=
   match f with
   | FDropBefore => (h, PErr)
+  | FExistsErr reached =>
+      if reached
+      then (fst (receive h (r_path e) (r_sha e) (r_size e) (r_sent e) body false), PErr)
+      else (h, PErr)
   | FBackpressure => (h, PBackpressure)
   | FConflict d => (h, PConflict d)
   | FDeliver m lost regfail =>
@@ -481,7 +493,8 @@ Definition send_one (e : row) : M unit :=
        end ;;
   match r with
   | PErr =>
-      sk <- skip_if_vanished p ;;
+      (* skipIfVanished: on an Exists ERROR nothing is skipped - uncertainty falls through to retry *)
+      sk <- (if exists_errs f then ret false else skip_if_vanished p) ;;
       if sk then ret tt else fail p
   | _ =>
       if negb (validate e r) then fail p else
@@ -513,6 +526,20 @@ Definition discover (pt : pt_of) (w : world) : world :=
   {| w_files := w_files w; w_origin := w_origin w; w_names := w_names w; w_led := rows;
      w_next := next; w_hub := w_hub w; w_tlog := lg ++ w_tlog w; w_slog := w_slog w |}.
 
+(* Reconciler.Reconcile writes to the index only to forget stale receipts; when that write fails
+   the batch fails (503) before anything was answered, otherwise the failure goes unnoticed *)
+Definition has_stale (h : hub) (paths : list N) : bool :=
+  existsb (fun p => match h_rcpt h p, rcpt_compacted h p, h_final h p with
+                    | Some _, None, None => true
+                    | _, _, _ => false
+                    end) paths.
+
+Definition eff_rfault (rf : rfault) (h : hub) (paths : list N) : rfault :=
+  match rf with
+  | RIndexFail => if has_stale h paths then RDropBefore else ROk
+  | x => x
+  end.
+
 (* the rest of Agent.Run with BatchSize = 0: one reconcile, then send what is missing *)
 Definition agent_body : M unit :=
   w <- getw ;;
@@ -522,13 +549,13 @@ Definition agent_body : M unit :=
   | _ =>
       c <- getc ;;
       tick ;;;
-      match c_rec c with
+      match eff_rfault (c_rec c) (w_hub w) (map r_path pending) with
       | RDropBefore => ret tt
       | rf =>
           res <- lift (fun w => let '(h', res) := hub_reconcile (w_hub w) (map (fun r => (r_path r, r_sha r)) pending) in
                                 (w_set_hub w h', res)) ;;
           match rf with
-          | RLostReply => ret tt
+          | RLostReply | RIndexFail => ret tt      (* RIndexFail cannot occur here: eff_rfault resolved it *)
           | _ =>
               forM (fun e => match class_of res (r_path e) with
                              | Some RPresent => tick ;;; _ <- lift (mark_synced (r_path e)) ;; ret tt
@@ -760,6 +787,15 @@ Definition hub_held_obs (tab : list bytes) (o : obs) (p : N) (d : digest) : bool
             end
   end.
 
+(* is the spoke's file of path p present after the events (paths are never reused) *)
+Fixpoint spoke_has (evs : list event) (p : N) (cur : bool) : bool :=
+  match evs with
+  | [] => cur
+  | ECreate q _ :: t => spoke_has t p (if N.eqb q p then true else cur)
+  | EVanish q :: t => spoke_has t p (if N.eqb q p then false else cur)
+  | _ :: t => spoke_has t p cur
+  end.
+
 (* genuine removals so far, per path, as OBSERVED: an EHubRemove after which the file is gone *)
 Definition removed_now (e : event) (prev o : obs) (p : N) : N :=
   match e with
@@ -797,6 +833,10 @@ Fixpoint oracle_steps (tab : list bytes) (seen : list event) (rm : N -> N) (prev
                              | None => false
                              end
                          | _ => true end) (o_trans o) &&
+      (* a row is skipped (vanished source) only when the source file is really absent *)
+      forallb (fun tr => match snd (fst tr), snd tr with
+                         | Some Pending, Some Skipped | Some InFlight, Some Skipped => negb (spoke_has evs (fst (fst tr)) false)
+                         | _, _ => true end) (o_trans o) &&
       oracle_steps tab evs rm' o t
   end.
 
